@@ -413,7 +413,28 @@ def h_ne_via_eq(ex, st, frame, t, nf, args, dty):
     return "pushed"
 
 
+def h_ord_via_partial_cmp(ex, st, frame, t, nf, args, dty):
+    """<T as PartialOrd>::{lt,le,gt,ge} for a crate type: provided methods over the type's own partial_cmp, which is run."""
+    op = nf.rsplit("::", 1)[1]
+    pname = t.func[:-len(op)] + "partial_cmp"
+    body = ex.find_body(pname)
+    if body is None:
+        raise Unsupported("call to %s (no partial_cmp body)" % nf[:120])
+    ex.push_frame(st, body, args, t.dest, t.targets.get("return"))
+
+    def w(ex_, st_, val, _op=op):
+        some = ex_.get_discr(st_, val).t == BV64(1)
+        o = ex_._get_field(st_, val, "Some", 0, "std::cmp::Ordering")
+        d = ex_.get_discr(st_, o).t
+        lt, eq, gt = d == BV64(-1), d == BV64(0), d == BV64(1)
+        r = {"lt": lt, "le": z3.Or(lt, eq), "gt": gt, "ge": z3.Or(gt, eq)}[_op]
+        return Sym(z3.And(some, r), "bool")
+    st.frames[-1].ret_wrap = w
+    return "pushed"
+
+
 PEARL_SUMMARIES = [
+    (r"^<([a-z_:]*::)?[A-Z]\w* as PartialOrd>::(lt|le|gt|ge)$", h_ord_via_partial_cmp),
     (r"^<(filter::FilterResult|FilterResult|[a-z_:]*::[A-Z]\w*) as PartialEq>::ne$", h_ne_via_eq),
     (r"^(std::collections::)?BTreeMap::get(_mut)?$", h_map_get_mut),
     (r"^(std::collections::)?BTreeMap::contains_key$", h_map_contains_key),
